@@ -54,6 +54,9 @@ def run(F, rep, tier):
     r5 = rep.rule("R09.5", "between / in-range / unary tests: the same ordered kinds, closed ends use the non-strict and open ends the strict primitive")
     c09.r5_intervals(F, rep, r5, c09.variants(F))
     c10.key_coverage_rule(F, rep)
+    # premise (C16): arguments and results of functions are coerced on the type Value::type_of reports - the type of a list must look at every item, [] is list<Null>
+    from props import c16
+    c16.list_type_fold_rule(F, rep)
 
 
 # ====================================================================================================== R01.1
